@@ -252,7 +252,11 @@ def make_view_variant(dst: str, mode: str) -> int:
   from fdlstatic.model import Project  # pylint: disable=g-import-not-at-top
   shutil.copytree(os.path.join(REPO, 'fiddle'), os.path.join(dst, 'fiddle'),
                   ignore=shutil.ignore_patterns('__pycache__', '*.pyc'))
-  p = Project(REPO, expand=VIEW_MODES[mode])
+  os.environ['FDLSTATIC_KEEP_EXPANDED'] = '1'
+  try:
+    p = Project(REPO, expand=VIEW_MODES[mode])
+  finally:
+    os.environ.pop('FDLSTATIC_KEEP_EXPANDED', None)
   for mod in p.modules.values():
     rel = os.path.relpath(mod.path, REPO)
     # names carried over from another module by the helper expansion are
